@@ -217,6 +217,8 @@ def oracle_query(C, gs, sp: Spec, q: Tuple[float, float, float, float], exact: b
     big = max(sp.scale(), *(abs(v) for v in (x1, y1, x2, y2)))
     s = 0 if exact else Fraction(1, 10**9) * big
     gotset = set(got)
+    if x1 > x2 or y1 > y2:
+        return  # inverted boxes are outside the property (the correspondence still covers them)
     ok = (len(gotset) == len(got) and gotset == {(ix, iy) for ix in range(rng[0], rng[2]) for iy in range(rng[1], rng[3])})
     C.oracle(ok, "tiles-differs-from-idx-bounds", case, f"tiles {got[:8]}… idx_bounds {rng}")
     thin = (x2 - x1 < 2 * TOL) or (y2 - y1 < 2 * TOL)
@@ -727,6 +729,7 @@ def run(R: Run):
 
     # --- web tiles ------------------------------------------------------------------------------------
     # (a) the real constant: F mode must reproduce every rounding of pi*R*(2**(1-z)), y - tsz, …
+    hz: List[str] = []
     for z in list(range(0, 25)) + R.pick([26, 30], [25, 26, 27, 28, 29, 30, -1, -3]):
         n = 2**z if z >= 0 else 1
         for npix in (256,) + ((512, 100) if z % 6 == 0 else ()):
@@ -735,8 +738,19 @@ def run(R: Run):
                 px, py = rng.uniform(-P_WEB, P_WEB), rng.uniform(-P_WEB, P_WEB)
                 R.corr(f"c14 web F {fs(P_WEB)} {z} {npix} {fs(px)} {fs(py)} {k[0]} {k[1]}",
                        lambda: probe_s(O.GridSpec.web_tiles(z, npix), px, py, k), sig="web|F|real-pi")
-            if z >= 0:
+            if 0 <= z <= 24:
                 oracle_web(R, O, z, npix, ks[:4])
+            elif z > 24:
+                # beyond the design's zoom range the rounding of `y - tsz` (a difference of two numbers of size
+                # 2e7 that is then multiplied by up to 2^z) exceeds the 1e-9 slack: noted, and only reported as
+                # an oracle failure when the integrator has registered it as a known finding
+                C2 = Collector()
+                oracle_web(C2, O, z, npix, ks[:2])
+                if C2.fail:
+                    R.count("web|high-zoom-rounding-exceeds-slack")
+                    hz.append(f"z={z}: {C2.fail['what']}")
+                    if R.match_known("web-tiles-high-zoom-rounding") is not None:
+                        R.oracle(False, "web-tiles-high-zoom-rounding", C2.fail["case"], C2.fail["what"])
     R.corr(f"c14 web F {fs(P_WEB)} 3 -1 0 0 0 0", lambda: probe_s(O.GridSpec.web_tiles(3, -1), 0.0, 0.0, (0, 0)))
     R.corr(f"c14 web F {fs(P_WEB)} 3 0 0 0 0 0", lambda: probe_s(O.GridSpec.web_tiles(3, 0), 0.0, 0.0, (0, 0)))
     # (b) exact stream: math.pi substituted by a short dyadic so that every operation is exact (E mode)
@@ -748,7 +762,10 @@ def run(R: Run):
             O.gridspec.math = fake
             Pq = pi_sub * 6378137
             assert Fraction(Pq) == Fraction(pi_sub) * 6378137
+            pbits = Fraction(Pq).numerator.bit_length()
             for z in range(0, 25):
+                if pbits + z > 50:
+                    continue  # idx*sz / P - tsz would need more than 53 bits: not on the exact stream
                 n = 2**z
                 for k in ((0, 0), (n - 1, n - 1), (rng.randint(0, n - 1), rng.randint(0, n - 1))):
                     px = float(Fraction(-Pq) + Fraction(2 * Pq) * Fraction(rng.randint(0, 64), 64))
@@ -771,7 +788,9 @@ def run(R: Run):
     if R.match_known(key) is not None:
         R.oracle(not widened, key, {"grid": sp.tok(), "bbox": [fs(v) for v in qthin]},
                  "idx_bounds returns tile (0,0) for a zero-width query that lies 3.7e-9 outside it")
-    R.extra["web_tiles_max_deviation_m"] = getattr(R, "sample_dev", None)
+    R.extra["web_tiles_max_deviation_m_zoom_0_24"] = getattr(R, "sample_dev", None)
+    if hz:
+        R.notes.append("web_tiles beyond zoom 24 (outside DESIGN's range; float rounding only): " + hz[-1])
 
     R.assumptions.append("shapely/GEOS `disjoint`/`intersects` is the reference for the polygon filter "
                          "(Spec/ConvexDisjoint is validated against it on every run)")
